@@ -84,3 +84,20 @@ Theorem C20_kernel_interpolates_any_same_normalisation
   kernel_predict X Y nrm fit te pe data x = y.
 Proof. exact (kernel_interpolates X Y nrm fit te pe data). Qed.
 Print Assumptions C20_kernel_interpolates_any_same_normalisation.
+
+(* File names.  Whatever name function save uses, if load uses the same one then among any number of
+   models saved one after the other each name gives back exactly what was saved under it, unless a
+   LATER save used that name again or a name that differs from it by exactly the suffix. *)
+Theorem C20_files_any_name_function (D : Type) (fsave fload : namefn) (fs : fsys D)
+        (pre : list (string * D)) (n : string) (d : D) (post : list (string * D)) :
+  namefn_eqb fsave fload = true ->
+  (forall n' d', In (n', d') post -> ~ alias fsave n' n) ->
+  fs_load D fload (fs_saves D fsave fs (pre ++ (n, d) :: post)%list) n = Some d.
+Proof. exact (files_independent D fsave fload fs pre n d post). Qed.
+Print Assumptions C20_files_any_name_function.
+
+(* Two caller-side names reach the same file only if they are equal or differ by exactly the suffix. *)
+Theorem C20_name_collision_only_by_suffix (f : namefn) (a b : string) :
+  apply_name f a = apply_name f b -> a = b \/ a = b ++ name_suffix f \/ b = a ++ name_suffix f.
+Proof. exact (name_collision f a b). Qed.
+Print Assumptions C20_name_collision_only_by_suffix.
